@@ -105,6 +105,18 @@ PROPS = {
         "lemmas": ["inv/delete_if_invalid_object"],
         "lemma_select": [r"lemma/delete_if_invalid_object/.*"],
     },
+    "C07": {
+        "fns": fns(SYNC, r"post/locks|call:.*") + fns([F + "store_object", F + "tag_object",
+                                                    F + "delete_object", F + "_delete_object_only",
+                                                    F + "_store_hashstore_refs_files",
+                                                    F + "delete_if_invalid_object"],
+                                                   r"post/locks|call:.*/pre:.*(held|order).*"),
+        "extra": [r"sync/.*::class (objpid|refpid|cid)", r"sync/(release-only-own|self-deadlock|"
+                  r"monitor-reentered|wait-inside-with)"],
+        "steps": True,
+        "scenario_select": [r"steps/(store_object|tag_object|delete_object).*/(W-.*|2P-.*)"],
+        "derived": "locks-object",
+    },
     "C08": {
         "fns": fns(SYNC + PUBLIC_OBJ + PUBLIC_META + REFS_CORE,
                    r"post/locks|call:.*/pre:(not-already-held|cid-not-already-held|lock-order|"
@@ -150,10 +162,14 @@ PROPS = {
         "lemma_select": [r"lemma/C11/.*", r"lemma/frame/.*/metadata-kept"],
     },
     "C12": {
-        "fns": fns(PUBLIC_META, r"post/locks"),
+        "fns": fns(PUBLIC_META, r"post/locks|C-check-then-act/.*|loop-foreach/locks-restored"),
         "extra": [r"sync/acquired-identifier-is-free::class doc",
                   r"sync/release-only-own"],
         "lemmas": [],
+        "steps": True,
+        "scenario_select": [r"steps/(store_metadata|delete_metadata).*/(W-.*|2P-.*)",
+                            r".*/C-check-then-act/.*"],
+        "derived": "locks-metadata",
     },
     "C14": {
         "fns": fns([F + "__init__", F + "_validate_properties", F + "_verify_hashstore_properties",
